@@ -240,6 +240,52 @@ def run(chk):
     if chk.need(ms6, 'structural_supertype_of: no match'):
         c06.quantifier_structure(chk, max(ms6, key=lambda n: len(n['arms'])), 'C33-union')
     c06.widen_rule(chk, fx, 'C33-widen')
+    absorb_rule(chk, fx)
     return ('Dominance rule over the structured HIR of Context::get_match_call_t, and a table-agreement rule (typed HIR + python ast) over the four interval operators. '
             'Soundness of sub_unify / union for other pattern types is not decided.'), {}
     return ('Dominance rule over the structured HIR of Context::get_match_call_t. Soundness of sub_unify / union and the run-time arm tests are not decided.'), {}
+
+
+def absorb_rule(chk, fx):
+    """the type compared with the scrutinee is built with Context::union: it must not grow beyond the set union of the arm types"""
+    from sa.props import c06
+    chk.rule('C33-absorb', 'Context::union merges a refinement (a literal / enum / interval type) into the other operand only when that operand contains the whole base type of the '
+                           'refinement: the arm `(Refinement(r), other)` that answers `union(other, r.t)` is guarded by an equality of the two classes or by `other :> r.t` — under '
+                           '`other <: r.t` the result is the base type itself (`{-1} or Nat` becomes Int), and a match with the arms `-1` and `(n: Nat)` over Int counts as exhaustive')
+    f = fx.fn(c06.COMPARE, 'Context::union')
+    ms = [n for n in T.walk(f['body']) if n.get('k') == 'Match' and n.get('src') == 'Normal']
+    if not chk.need(ms, 'Context::union: no match'):
+        return
+    m = max(ms, key=lambda n: len(n['arms']))
+    n = 0
+    for arm in m['arms']:
+        alts = arm['pat']['p'] if arm['pat'].get('k') == 'POr' else [arm['pat']]
+        binds = None
+        for alt in alts:
+            if alt.get('k') == 'PTuple' and len(alt.get('p', [])) == 2:
+                kinds = [(''.join(T.last_seg(v) for v in T.pat_variants(q)) or 'bind') for q in alt['p']]
+                if 'Refinement' in kinds[0] + kinds[1] and any(q.get('k') == 'Bind' for q in alt['p']):
+                    rname = [b for q in alt['p'] if q.get('k') != 'Bind' for b in T.pat_bindings(q)]
+                    oname = [q['n'] for q in alt['p'] if q.get('k') == 'Bind']
+                    if rname and oname:
+                        binds = (rname[0], oname[0])
+        if not binds:
+            continue
+        body = T.show(arm['b']).replace(' ', '')
+        rn, on = binds
+        # does the arm answer with the union of `other` and the base type of the refinement?
+        if ('union(%s,&%s.t)' % (on, rn)) not in body and ('union(&%s.t,%s)' % (rn, on)) not in body:
+            continue
+        n += 1
+        g = arm.get('g')
+        gs = T.show(g).replace(' ', '') if g is not None else ''
+        same_class = ('%s.qual_name()==%s.t.qual_name()' % (on, rn)) in gs or ('%s.t.qual_name()==%s.qual_name()' % (rn, on)) in gs
+        contains = ('supertype_of(%s,&%s.t)' % (on, rn)) in gs or ('subtype_of(&%s.t,%s)' % (rn, on)) in gs
+        inverse = ('subtype_of(%s,&%s.t)' % (on, rn)) in gs or ('supertype_of(&%s.t,%s)' % (rn, on)) in gs
+        if (same_class or contains) and not inverse:
+            chk.ok('C33-absorb', 'refinement-absorbed', sample='guard: %s' % T.show(g)[:70])
+        else:
+            chk.bad('C33-absorb', 'Context::union', 'absorbed-into-subclass' if inverse else 'unguarded-absorb', 'Context::union answers `union(%s, %s.t)` for a refinement and another type %s: the '
+                    'refinement is replaced by its whole base class although the other type does not contain it — `{-1} or Nat` becomes Int, so `match x: -1 -> ..; (n: Nat) -> ..` '
+                    'over Int is accepted and -2 runs the last arm' % (on, rn, 'under the guard `%s`' % T.show(g)[:60] if g is not None else 'without a guard'), c06.COMPARE, arm.get('l'))
+    chk.floor('refinement-absorbing arms of Context::union', n, 1)
